@@ -58,12 +58,12 @@ CLAUSES = {
     "passes through every tabulated point": "proved [ideal, ANY n in 1..64 on the stored object (symbolic lists, abscissae pairwise >= tol apart): __call__ returns y_j at every x_j (C12_call_any; this is the |x - xi| < tol shortcut) AND the Newton polynomial it evaluates between the nodes passes through every point (C12_interpolates_any, Spec/Newton.v: Neville recursion for the Newton form, induction on n)]; n = 3 symbolic version C12_through_points; n = 2..9 searched (exact equality) + bit-exact correspondence",
     "reproduces polynomials of degree < n (relative 1e-9)": "proved [ideal, ANY n in 2..64, END TO END: C12_polynomial_any - points in any order, ordinates p(x_j) with deg p < n => Interpolation(px, py)(x) = p(x) exactly between the nodes and derivative(x) = p'(x) (n >= 3); pieces: _newton_diff = divided differences (C12_newton_diff_any), _compute_table stores them (C12_compute_table_any), __call__ between the nodes = Horner evaluation = Newton form NF (C12_call_any), and NF reproduces every polynomial of degree < n exactly at every x (C12_interpolates_any: a degree < n polynomial with n distinct zeros is 0)]; limits: exact real arithmetic (says nothing about the 1e-9 in binary64), x at least tol away from every node (closer than tol the node ordinate is returned), the model's recursion fuel bounds n by 64; all float input forms (lists, tuples, interleaved scalars, copy) any n; n = 2..9 by correspondence + search against exact Fraction Lagrange; the oracle measures 'relative 1e-9' against max(1, max|y|) of the table (worst observed 4.5e-12 for values, 2.3e-11 for derivatives)",
     "derivative of that polynomial": "proved [ideal, ANY n in 3..64 on the stored object: the three nested generated loops of derivative() return the derivative (Coquelicot is_derive) of the Newton form through all n points, inside the table: C12_derivative_any; n = 2: slope of the chord, C12_derivative_two; symbolic n = 3 version C12_derivative]; exact real arithmetic; n = 2..9 searched",
-    "independent of the order of the points and of the input form": "proved [ideal, ANY n in 2..64, two-list form: Interpolation(px, py) for symbolic lists in any order is the object with strictly increasing abscissae, ordinates carried along, divided-difference table (C12_constructor_any: every generated loop of set(), _order_points, _compute_table), and two orders of the same points give the IDENTICAL object (C12_constructor_order_independent_any; _order_points alone for any n >= 1: C12_order_points_any, C12_order_independent_any)]; two tuples and interleaved scalars give the same object as two lists for any n in 2..64 and the copy constructor copies the fields of any table (C12_constructor_forms_any, C12_copy_any); NOT proved: the ordinates-only form Interpolation([y..]), mixed list/tuple arguments, the dropped dangling argument and Angle/int entries (searched); n = 2..9 all forms searched; call sequences copy/set searched (key copy-shares-state)",
+    "independent of the order of the points and of the input form": "proved [ideal, ANY n in 2..64, two-list form: Interpolation(px, py) for symbolic lists in any order is the object with strictly increasing abscissae, ordinates carried along, divided-difference table (C12_constructor_any: every generated loop of set(), _order_points, _compute_table), and two orders of the same points give the IDENTICAL object (C12_constructor_order_independent_any; _order_points alone for any n >= 1: C12_order_points_any, C12_order_independent_any)]; two tuples and interleaved scalars give the same object as two lists for any n in 2..64 and the copy constructor copies the fields of any table (C12_constructor_forms_any, C12_copy_any); NOT proved: the ordinates-only form Interpolation([y..]), mixed list/tuple arguments, the dropped dangling argument and Angle/int entries (searched); n = 2..9 all forms searched; call sequences copy/set searched (key copy-shares-state); one object used again: evaluate - set() another table through every input form (incl. ordinates only, list+tuple, copy form) or set_tolerance - evaluate must agree bit for bit with a fresh object (searched, key stale-state-after-set)",
     "abscissae outside the table refused with ValueError": "proved [ideal, ANY n: __call__ beyond the tolerance of every node and outside [x_0, x_(n-1)] gives ValueError (C12_refused_any, n >= 1), derivative immediately outside (C12_derivative_any, n >= 3); within tol of an end node __call__ returns that node's ordinate]; n = 3 symbolic version C12_refused; searched n = 2..9; the oracle demands the refusal of __call__ from 2e-10 beyond the table on (and of derivative() from the next float on): closer than the tolerance to an end node the library's documented tolerance semantics identify the abscissa with that node",
     "duplicated abscissae refused with ValueError": "proved [ideal, ANY n >= 2, two-list form: any pair of abscissae closer than tol gives ValueError (C12_duplicates_any: nested duplicate-test loops, first flagged pair in scan order)]; other input forms searched (exact and 5e-11-apart duplicates) + correspondence; 'duplicated' follows the library's documented tolerance semantics: abscissae closer than the tolerance (the oracle uses 0 and 5e-11) must be refused",
-    "root(): returned abscissa inside [xl, xh] (ordered, clamped) with |interpolant| <= tol": "proved [ideal, ANY table, max_iter in 0..4999; partial correctness: termination with a root unproved - the outcome is such a float or ValueError, nothing else (OutOfFuel/TypeError/Unsupported excluded): C12_root_step (loop, fuel induction), C12_root_sound (entry paths in-table incl. xl = 0, reversed, reversed+outside, clamped-low, default; 'only xh above the table' not a separate theorem); callee assumption (__call__/derivative return float or ValueError) discharged for EVERY stored table of n = 3..64 points (C12_root_any: no assumption left; __call__/derivative proved total by loop induction) and for the symbolic 3-point table (C12_root_witness)]; proved [B64, explicit grid of 24 tables x all unequal limit pairs: C12_grid_b64, 756 roots found: C12_grid_found]; the oracle demands |P_exact(r)| <= get_tolerance() + 64 units in the last place of the Horner sums (rounding of the object's own evaluation, eval_noise), or r closer than the tolerance to a node that is a zero in that sense (tolerance semantics)",
+    "root(): returned abscissa inside [xl, xh] (ordered, clamped) with |interpolant| <= tol": "proved [ideal, ANY table, max_iter in 0..4999; partial correctness: termination with a root unproved - the outcome is such a float or ValueError, nothing else (OutOfFuel/TypeError/Unsupported excluded): C12_root_step (loop, fuel induction), C12_root_sound (entry paths in-table incl. xl = 0, reversed, reversed+outside, clamped-low, default; 'only xh above the table' not a separate theorem); callee assumption (__call__/derivative return float or ValueError) discharged for EVERY stored table of n = 3..64 points (C12_root_any: no assumption left; __call__/derivative proved total by loop induction) and for the symbolic 3-point table (C12_root_witness)]; proved [B64, explicit grid of 24 tables x all unequal limit pairs: C12_grid_b64, 756 roots found: C12_grid_found]; the oracle demands |P_exact(r)| <= get_tolerance() + 64 units in the last place of the Horner sums (rounding of the object's own evaluation, eval_noise), or r closer than the tolerance to a node that is a zero in that sense (tolerance semantics); searched ALSO on objects with a non-default tolerance (set_tolerance 1e-13, 1e-12, 1e-8, 1e-6: the residual demand follows get_tolerance()) incl. intervals with a limit whose function value is between tol/10 and 1000 tol",
     "root(): a value IS returned whenever the interpolant changes sign (convergence within max_iter)": "unproved (searched): not provable in general; a step towards it after the repair edeb4b4: every fallback step (derivative too small) shrinks the bracket to at most 90 % (C12_root_progress); holds on the B64 grid (C12_grid_b64: ValueError only without a clear sign change); searched on ALL tables; known finding root-tolerance-below-rounding-noise-large-ordinates: next to ordinates above 1000 the absolute tolerance 1e-10 can be below what binary64 resolves (evaluation noise >= tol/2, or no float near the zero has |value| <= tol) and root()/minmax() give up with 'Too many iterations' - everything else is root-not-found / minmax-not-found",
-    "minmax(): abscissa inside the interval where the derivative vanishes": "proved [B64, grid only: C12_grid_b64 with the independent Lagrange derivative]; no ideal-instance theorem; searched",
+    "minmax(): abscissa inside the interval where the derivative vanishes": "proved [B64, grid only: C12_grid_b64 with the independent Lagrange derivative]; no ideal-instance theorem; searched; searched also with non-default tolerances; known finding minmax-ignores-tighter-object-tolerance: the inner object of minmax() has the default tolerance 1e-10, so with a tighter object tolerance the extremum is only located to 1e-10",
     "conjunction helpers return the time of zero interpolated difference": "unproved (searched): independent Lagrange interpolation of the coordinate differences, 1e-9; bit-exact correspondence of the four helpers",
     "Angle ordinates (conjunction helpers) with rough data": "refuted: known finding angle-ordinates-newton-derivative-wraps - Interpolation([-3..3],[Angle(a) for a in [-1.57,-3.0,-1.29,-0.7,-0.33,-0.06,0.28]]).root() raises ValueError('Too many iterations'), derivative(Angle(2.5)) = 14.5165 instead of 0.0815",
 }
@@ -441,18 +441,40 @@ class Oracle:
                 return True
         return False
 
+    MINMAX_TOL_KEY = "minmax-ignores-tighter-object-tolerance"
+
+    def zero_key(self, what, xs, ys, it, Q, r):
+        """key for a returned abscissa that is not a zero to the object's tolerance.  minmax() looks for the zero with a
+        NEW Interpolation object of the derivative, which has the default tolerance 1e-10 whatever the object's own
+        tolerance is: with a tighter tolerance (set_tolerance(t), t < 1e-10) the extremum is only located to 1e-10.
+        Envelope of that finding: minmax only, object tolerance below 1e-10, and the abscissa IS a zero of the
+        derivative to the default 1e-10 (plus the evaluation rounding).  Everything else: <what>-not-a-zero."""
+        if what == "minmax" and it.get_tolerance() < 1e-10 and \
+                abs(peval(Q, r)) <= Fr(1, 10**10) + 64 * eval_noise(what, xs, ys, Q, r):
+            return self.MINMAX_TOL_KEY
+        return what + "-not-a-zero"
+
     def noise_excused(self, what, xs, ys, it, Q, a, b, ex):
         """envelope of the known finding NOISE_KEY: the absolute tolerance (1e-10) is below the rounding noise of the
         object's own evaluation next to large ordinates: the iteration oscillates between neighbouring floats whose
-        computed values are all noise, and gives up.  Only if ALL of: the exception is 'Too many iterations'; the
+        computed values are all noise, and gives up (or, at a limit whose exact value is smaller than the evaluation error,
+        the sign test refuses the interval with 'Invalid interval').  Only if ALL of: the exception is 'Too many iterations'; the
         ordinates (minmax: the nodal derivatives) exceed 1000; and at the zero of the exact polynomial in the interval
         (bisection on exact values down to adjacent floats), among the 17 floats around it, EITHER the object's own
         evaluation is wrong by at least half the tolerance somewhere (measured |computed - exact|: rounding noise)
         OR no float at all has a computed |value| <= tol (the slope is so steep that one unit in the last place of the
         abscissa changes the value by more than the tolerance: the stopping criterion is unreachable in binary64)."""
-        if "Too many iterations" not in str(ex): return False
         big = max(abs(float(peval(Q, t))) for t in xs) if what == "minmax" else max(abs(y) for y in ys)
-        if big <= 1000.0: return False
+        if big <= 1000.0 * (it.get_tolerance() / 1e-10): return False      # 1000 for the default tolerance: the ratio max|y| / tol > 1e13
+        if "Invalid interval" in str(ex):
+            # same cause seen at a LIMIT: the exact value there is smaller than the error of the object's own evaluation,
+            # so the computed sign at the limit is noise and the sign test refuses the interval
+            try:
+                obj = it if what == "root" else self.I(list(xs), [it.derivative(t) for t in xs])
+                return any(abs(Fr(obj(e)) - peval(Q, e)) >= abs(peval(Q, e)) for e in (float(a), float(b)))
+            except Exception:
+                return False
+        if "Too many iterations" not in str(ex): return False
         try:
             obj = it if what == "root" else self.I(list(xs), [it.derivative(t) for t in xs])
             tol = it.get_tolerance()
@@ -476,9 +498,14 @@ class Oracle:
         except Exception:
             return False
 
-    def check_roots(self, rng, xs, ys, it, P, ctor, what, nmax=6):
-        """what = 'root' (P is the interpolant) or 'minmax' (P is its derivative)"""
+    def check_roots(self, rng, xs, ys, it, P, ctor, what, nmax=6, tol=None):
+        """what = 'root' (P is the interpolant) or 'minmax' (P is its derivative).  With `tol` the clauses are examined on
+        a fresh object whose tolerance was changed with set_tolerance(tol): the residual demanded from a returned
+        abscissa follows get_tolerance()."""
         I = self.I
+        if tol is not None:
+            it = I(list(xs), list(ys)); it.set_tolerance(tol)
+            ctor = ctor + "); i.set_tolerance(%r" % tol
         samp = self.sign_changes(P, xs, rng)
         big = max(1.0, max(abs(y) for y in ys))
         clear = [(x, v) for x, v in samp if abs(v) > Fr(1, 10**4)]
@@ -510,10 +537,44 @@ class Oracle:
                     self.report(what + "-outside-interval", "%s = %r is outside [%r, %r]" % (call, r, a, b), ctor, call, [xs, ys, xl, xh]); return
                 res = peval(P, r)
                 if not self.is_zero(what, xs, ys, it, P, r):
-                    self.report(what + "-not-a-zero", "%s = %r where the %s is %.3g (not zero to the object's tolerance)"
-                                % (call, r, "interpolant" if what == "root" else "derivative", float(res)), ctor, call, [xs, ys, xl, xh]); return
+                    self.report(self.zero_key(what, xs, ys, it, P, r), "%s = %r where the %s is %.3g (not zero to the object's tolerance %r)"
+                                % (call, r, "interpolant" if what == "root" else "derivative", float(res), it.get_tolerance()), ctor, call, [xs, ys, xl, xh]); return
                 done += 1
         if done: self.nontrivial += 1
+        # a limit very close to (not at) a zero: |function value| at the limit between tol/10 and 1000 tol.  The
+        # 'a limit is already a root' shortcuts must use the OBJECT'S tolerance
+        otol = it.get_tolerance()
+        for a, b in pairs[:2]:
+            lo, hi = float(a), float(b); flo = peval(P, lo)
+            for _ in range(80):
+                mid = 0.5 * (lo + hi)
+                if mid <= lo or mid >= hi: break
+                fm = peval(P, mid)
+                if fm == 0: lo = hi = mid; break
+                if (fm > 0) == (flo > 0): lo, flo = mid, fm
+                else: hi = mid
+            z = lo; slope = abs(float(peval(pderiv(P), z)))
+            if slope < 1e-6 or slope > 1e6: continue
+            for fac in (0.1, 0.5, 3.0, 40.0, 1000.0):
+                d = fac * otol / slope
+                for xl, xh, ea, eb in ((z - d, b, z - d, b), (a, z + d, a, z + d), (b, z - d, z - d, b)):
+                    if not (a < xl < b or a < xh < b) or min(xl, xh) < xs[0] or max(xl, xh) > xs[-1]: continue
+                    if peval(P, ea) * peval(P, eb) >= 0: continue       # no sign change on this interval: nothing promised
+                    self.n += 1
+                    call = "i.%s(%r, %r)" % (what, xl, xh)
+                    try:
+                        r = getattr(it, what)(xl, xh)
+                    except Exception as ex:
+                        key = self.NOISE_KEY if self.noise_excused(what, xs, ys, it, P, ea, eb, ex) else what + "-not-found"
+                        self.report(key, "%s raises %s(%s) although the %s changes sign (a limit lies %.3g tolerances from the zero %r in function value)"
+                                    % (call, type(ex).__name__, " ".join(str(ex).split()), "interpolant" if what == "root" else "derivative", fac, z),
+                                    ctor, call, [xs, ys, xl, xh]); return
+                    if not isinstance(r, (int, float)) or not (ea <= r <= eb):
+                        self.report(what + "-outside-interval", "%s = %r is outside [%r, %r]" % (call, r, ea, eb), ctor, call, [xs, ys, xl, xh]); return
+                    if not self.is_zero(what, xs, ys, it, P, r):
+                        self.report(self.zero_key(what, xs, ys, it, P, r), "%s = %r where the %s is %.3g, tolerance of the object %r (the limit lies %.3g tolerances from the zero in function value)"
+                                    % (call, r, "interpolant" if what == "root" else "derivative", float(peval(P, r)), otol, fac),
+                                    ctor, call, [xs, ys, xl, xh]); return
         # interval without a table point in common / equal limits: must not return anything silly
         self.n += 1
         try:
@@ -544,7 +605,7 @@ class Oracle:
                     except Exception as ex:
                         self.report(what + "-wrong-exception", "%s raises %s" % (call, type(ex).__name__), ctor, call, [xs, ys, xl, xh]); return
                     if not isinstance(r, (int, float)) or not (a <= r <= b) or not self.is_zero(what, xs, ys, it, P, r):
-                        self.report(what + "-not-a-zero", "%s = %r: not a zero inside the interval (value %.3g there; the limit %r is an exact zero)"
+                        self.report(self.zero_key(what, xs, ys, it, P, r) if isinstance(r, (int, float)) and a <= r <= b else what + "-not-a-zero", "%s = %r: not a zero inside the interval (value %.3g there; the limit %r is an exact zero)"
                                     % (call, r, float(peval(P, r)) if isinstance(r, (int, float)) else float("nan"), z), ctor, call, [xs, ys, xl, xh]); return
         # no sign change on a clear interval: a returned value must still be a zero inside the interval
         same = [(clear[i][0], clear[j][0]) for i in range(len(clear)) for j in range(i + 1, len(clear))
@@ -560,7 +621,7 @@ class Oracle:
                 self.report(what + "-wrong-exception", "i.%s(%r, %r) raises %s" % (what, a, b, type(ex).__name__), ctor,
                             "i.%s(%r, %r)" % (what, a, b), [xs, ys, a, b]); return
             if not (a <= r <= b) or not self.is_zero(what, xs, ys, it, P, r):
-                self.report(what + "-not-a-zero", "i.%s(%r, %r) = %r: not a zero inside the interval (value %.3g)"
+                self.report(self.zero_key(what, xs, ys, it, P, r) if a <= r <= b else what + "-not-a-zero", "i.%s(%r, %r) = %r: not a zero inside the interval (value %.3g)"
                             % (what, a, b, r, float(peval(P, r))), ctor, "i.%s(%r, %r)" % (what, a, b), [xs, ys, a, b]); return
 
     # --- known finding: Angle ordinates make root() iterate on an Angle abscissa ------------------
@@ -573,8 +634,8 @@ class Oracle:
         (a) derivative(Angle(x)) differs from derivative(x) only where a wrap is possible (the sum over j of
             prod_{i != j} |x - x_i| of some order exceeds 360) and the wrong value is itself an Angle below 360;
             a mismatch without a possible wrap goes to `angle-ordinates-derivative-mismatch`;
-        (b) root() / planet_star_conjunction raise 'Too many iterations' on at most 5 % of the rough probe tables
-            (measured after commit edeb4b4: 11 of 2400, at most 2 % per 200) - more goes to the `-gross` key;
+        (b) root() / planet_star_conjunction raise 'Too many iterations' on at most max(3, 5 %) of the random rough probe
+            tables (measured after commit edeb4b4: 11 of 2400, at most 2 % per 200) - more goes to the `-gross` key;
         (c) a value that IS returned must be a zero of the interpolant inside the table (else
             `angle-ordinates-wrong-root`; a different zero than the float run finds is fine)."""
         I, A, C = self.I, self.Angle, self.C
@@ -622,11 +683,15 @@ class Oracle:
                                    % (da, " ".join(str(ex).split()), rf), ctor, "i.root()", [ns, da]))
                 else:
                     self.report("star-conjunction-raises", "planet_star_conjunction with RA differences %r raises ValueError(%s)" % (da, " ".join(str(ex).split())), ctor, "i.root()", [ns, da])
-        # share bound on the raises (each table can contribute two: root and the helper)
-        bound = 2 * max(1, math.ceil(0.05 * len(tabs)))
-        key = self.KNOWN_ANGLE if len(raises) <= bound else self.KNOWN_ANGLE + "-gross"
+        # share bound on the RANDOM probe tables that raise (the first, fixed table is the recorded example and always
+        # does): at most max(3, 5 %) of them - measured rate after edeb4b4 0.5 % (11 of 2400), so 3 of 20 or 10 of 200 are
+        # beyond 1e-4 probability
+        first = str(tabs[0])
+        nraise = len({str(inp[1]) for _, _, _, inp in raises if str(inp[1]) != first})
+        bound = max(3, math.ceil(0.05 * (len(tabs) - 1)))
+        key = self.KNOWN_ANGLE if nraise <= bound else self.KNOWN_ANGLE + "-gross"
         for what, ctor, call, inp in raises:
-            self.report(key, what + (" [%d raises on %d probe tables, bound %d]" % (len(raises), len(tabs), bound)), ctor, call, inp)
+            self.report(key, what + (" [%d of %d random probe tables raise, bound %d]" % (nraise, len(tabs) - 1, bound)), ctor, call, inp)
 
     # --- sequences: a copy and its original must not share mutable state --------------------------
     def check_sequences(self, rng, full):
@@ -697,6 +762,83 @@ class Oracle:
                                               "replay": HDR % (seq + "; print(len(a), a._x, a._y, len(b), b._x, b._y); print([a(x) for x in a._x], [b(x) for x in b._x])")})
                         return
                 self.nontrivial += 1
+
+    # --- one object used again: evaluate, set() another table in every input form, evaluate ---------
+    def check_reuse(self, rng, full):
+        """On ONE object: call every evaluator (__call__, derivative, root, minmax with default and explicit limits),
+        then set() a different table through every input form (two lists, two tuples, list+tuple, interleaved scalars,
+        ordinates only, the copy form from another object), after which the same evaluators must give, bit for bit,
+        what a freshly constructed object with the second table gives; likewise evaluator -> set_tolerance ->
+        evaluator against a fresh object whose tolerance was set before its first use.  Key `stale-state-after-set`."""
+        I = self.I
+        def evaluators(o, xs):
+            lo, hi = min(xs), max(xs); span = hi - lo
+            pts = [lo + span * t for t in (0.0, 0.21, 0.5, 0.83, 1.0)]
+            calls = [("i(%r)" % p, lambda p=p: o(p)) for p in pts] + \
+                    [("i.derivative(%r)" % p, lambda p=p: o.derivative(p)) for p in pts] + \
+                    [("i.root()", lambda: o.root()), ("i.minmax()", lambda: o.minmax()),
+                     ("i.root(%r, %r)" % (lo + 0.1 * span, hi - 0.15 * span), lambda: o.root(lo + 0.1 * span, hi - 0.15 * span)),
+                     ("i.minmax(%r, %r)" % (lo + 0.1 * span, hi - 0.15 * span), lambda: o.minmax(lo + 0.1 * span, hi - 0.15 * span)),
+                     ("i.minmax(%r, %r)" % (hi, lo + 0.3 * span), lambda: o.minmax(hi, lo + 0.3 * span)),
+                     ("len(i)", lambda: len(o)), ("i.get_tolerance()", lambda: o.get_tolerance())]
+            out = []
+            for name, f in calls:
+                try: out.append((name, repr(f())))
+                except Exception as ex: out.append((name, type(ex).__name__))
+            return out
+        HDR = "PYTHONPATH=/repo /venv/bin/python -c \"from pymeeus.Interpolation import Interpolation; %s\""
+        for _ in range(12 if not full else 120):
+            n1, n2 = rng.randint(3, 7), rng.randint(3, 7)
+            x1, y1, _, _ = gen_table(rng, n1, want="smooth")
+            if rng.random() < 0.5:
+                x2 = [float(k) for k in range(n2)]                     # allows the ordinates-only form
+                y2 = [math.sin(0.9 * k + rng.uniform(0, 3)) * rng.uniform(0.5, 3) for k in range(n2)]
+            else:
+                x2, y2, _, _ = gen_table(rng, n2, want="smooth")
+            s2x, s2y = shuffled(rng, x2, y2)
+            A1 = "%s, %s" % (fl(x1), fl(y1))
+            forms = [("two lists", "%s, %s" % (fl(s2x), fl(s2y)), lambda: (list(s2x), list(s2y))),
+                     ("two tuples", "%r, %r" % (tuple(s2x), tuple(s2y)), lambda: (tuple(s2x), tuple(s2y))),
+                     ("list and tuple", "%s, %r" % (fl(s2x), tuple(s2y)), lambda: (list(s2x), tuple(s2y))),
+                     ("interleaved scalars", ", ".join(repr(v) for p in zip(s2x, s2y) for v in p),
+                      lambda: tuple(v for p in zip(s2x, s2y) for v in p)),
+                     ("copy form", "Interpolation(%s, %s)" % (fl(s2x), fl(s2y)), lambda: (I(list(s2x), list(s2y)),))]
+            if x2 == [float(k) for k in range(n2)]:
+                forms.append(("ordinates only", fl(y2), lambda: (list(y2),)))
+            for name, argtxt, mk in forms:
+                self.n += 1
+                seq = "i = Interpolation(%s); i.root(); i.minmax(); i(%r); i.derivative(%r); i.set(%s)" % (A1, x1[0], x1[0], argtxt)
+                try:
+                    m = I(list(x1), list(y1)); evaluators(m, x1)
+                    m.set(*mk())
+                    got = evaluators(m, x2)
+                    fresh = I(*mk()); want = evaluators(fresh, x2)
+                except Exception as ex:
+                    self.findings.append({"key": "stale-state-after-set", "what": "%s: the sequence raises %s(%s)" % (name, type(ex).__name__, ex),
+                                          "input": seq, "replay": HDR % (seq + "; print(i._x)")}); return
+                bad = [(a[0], a[1], b[1]) for a, b in zip(got, want) if a != b]
+                if bad:
+                    c, g, w = bad[0]
+                    self.findings.append({"key": "stale-state-after-set",
+                                          "what": "after evaluating on one table and set() of another one (%s), %s = %s; a freshly constructed object gives %s" % (name, c, g, w),
+                                          "input": seq, "replay": HDR % (seq + "; print(%s)" % c)}); return
+                self.nontrivial += 1
+            # evaluator -> set_tolerance -> evaluator
+            for t in (1e-6, 1e-13):
+                self.n += 1
+                seq = "i = Interpolation(%s); i.root(); i.minmax(); i.set_tolerance(%r)" % (A1, t)
+                try:
+                    m = I(list(x1), list(y1)); evaluators(m, x1); m.set_tolerance(t); got = evaluators(m, x1)
+                    fresh = I(list(x1), list(y1)); fresh.set_tolerance(t); want = evaluators(fresh, x1)
+                except Exception as ex:
+                    self.findings.append({"key": "stale-state-after-set", "what": "set_tolerance: the sequence raises %s(%s)" % (type(ex).__name__, ex),
+                                          "input": seq, "replay": HDR % (seq + "; print(i._x)")}); return
+                bad = [(a[0], a[1], b[1]) for a, b in zip(got, want) if a != b]
+                if bad:
+                    c, g, w = bad[0]
+                    self.findings.append({"key": "stale-state-after-set",
+                                          "what": "after evaluating and then set_tolerance(%r), %s = %s; an object whose tolerance was set before its first use gives %s" % (t, c, g, w),
+                                          "input": seq, "replay": HDR % (seq + "; print(%s)" % c)}); return
 
     def _seq(self, act, s1):
         a = self.I(list(s1[0]), list(s1[1])); b = self.I(a); act(a, b); return a, b
@@ -845,6 +987,12 @@ def search(rng, tier, deep):
         O.check_roots(rng, xs, ys, it, P, ctor, "root")
         if n >= 3:
             O.check_roots(rng, xs, ys, it, D, ctor, "minmax")
+        if t % 3 == 1:
+            # ... and on objects with a non-default tolerance: 'vanishes (to the object's tolerance)'
+            otol = (1e-13, 1e-12, 1e-8, 1e-6)[(t // 3) % 4]
+            O.check_roots(rng, xs, ys, it, P, ctor, "root", nmax=3, tol=otol)
+            if n >= 3:
+                O.check_roots(rng, xs, ys, it, D, ctor, "minmax", nmax=3, tol=otol)
         if len(O.findings) >= 40: break
     # documented examples
     I = O.I
@@ -863,13 +1011,14 @@ def search(rng, tier, deep):
             O.report("documented-example", "Interpolation(%s): %s = %r, documented %r" % (ctor, call, got, want), ctor, call, [ctor, call])
     O.check_clients(rng, full)
     O.check_sequences(rng, full)
+    O.check_reuse(rng, full)
     O.probe_angle_ordinates(rng, full)
     stats = {"evaluations": O.n, "distinct_nontrivial": O.nontrivial,
              "rule": ("%d tables of 2-9 points (equal / dyadic / arbitrary spacing; data: %s), each supplied shuffled and in every input form; "
                       "values and derivatives compared with the exact (Fraction) Lagrange polynomial to 1e-9 relative to max(1, max|y|) between and next to the nodes; "
                       "ValueError outside the table (incl. 2e-10 beyond the ends) and for duplicated abscissae; root()/minmax() on up to 6 "
                       "sign-changing sub-intervals per table in both orientations and with out-of-table limits: result inside the clamped interval, "
-                      "exact polynomial (resp. derivative) zero there to the object's tolerance (1e-10) plus the rounding of its own evaluation, on ALL tables; the four Coordinates helpers against an independent Lagrange interpolation; call sequences (copy, then set() on either object) after which both objects must still represent their own tables")
+                      "exact polynomial (resp. derivative) zero there to the object's tolerance (1e-10) plus the rounding of its own evaluation, on ALL tables; the four Coordinates helpers against an independent Lagrange interpolation; call sequences (copy, then set() on either object) after which both objects must still represent their own tables; evaluate - set() another table in every input form / set_tolerance - evaluate against a fresh object, bit for bit; root/minmax clauses also on objects with tolerance 1e-13, 1e-12, 1e-8, 1e-6 incl. limits within [tol/10, 1000 tol] of a zero")
                      % (ntab, ", ".join("%s %d" % kv for kv in sorted(kinds.items()))),
              "samples": [{"input": "Interpolation([-1.0, 0.0, 1.0], [-2.0, 3.0, 2.0]).root()", "checked": "-0.72075922 inside [-1, 1], P(root) = 0 to 1e-9"}],
              "exhaustive_search": False}
